@@ -59,6 +59,7 @@ type monitor struct {
 	evCommitted map[string]int64
 	auditAt     map[int]int64
 	assembled   map[string]bool
+	hdrs        map[int64]*hdrRec
 }
 
 type c05state struct {
@@ -74,7 +75,7 @@ type c05state struct {
 func newMonitor(s *sim) *monitor {
 	return &monitor{s: s, decided: map[int64][]byte{}, decidedBy: map[int64]int{}, audited: map[int]int64{}, signs: map[int][]signRec{}, c05: map[int]*c05state{}, invalid: map[string]string{},
 		recv: map[int]map[string]map[string]bool{}, vals: map[int64]*types.ValidatorSet{}, signSeen: map[int]int{},
-		stateBytes: map[int64][]byte{}, stateFrom: map[int64]int{}, stateSeen: map[int]int64{}, evCommitted: map[string]int64{}, auditAt: map[int]int64{}, assembled: map[string]bool{}}
+		stateBytes: map[int64][]byte{}, stateFrom: map[int64]int{}, stateSeen: map[int]int64{}, evCommitted: map[string]int64{}, auditAt: map[int]int64{}, assembled: map[string]bool{}, hdrs: map[int64]*hdrRec{}}
 }
 
 func (m *monitor) onCrash(n *simNode, ci *crashInfo) {}
@@ -558,6 +559,7 @@ func (m *monitor) checkDecidedBlock(n *simNode, h int64, meta *types.BlockMeta) 
 		return
 	}
 	if e.Checking("C06") {
+		m.checkDecidedHeader(n, h, blk, meta)
 		if params, err := n.sstore.LoadConsensusParams(h); err == nil && params.Block.MaxBytes > 0 {
 			if int64(meta.BlockSize) > params.Block.MaxBytes {
 				e.Fail("C06", "block-over-size-limit", "decided block %d is %d bytes, the limit in force is %d", h, meta.BlockSize, params.Block.MaxBytes)
